@@ -510,10 +510,10 @@ Section ObjW.
     st (fst (drain_cache E cache o c)) /\ hdr (fst (drain_cache E cache o c)) = hdr o.
   Proof.
     induction cache as [|p rest IH]; intros o c Fc S PK Hne; cbn [drain_cache fst]; [split; [exact S|reflexivity]|].
-    set (o0 := mk_or _ _ _ (List.rev rest) _ _ _ _ _ _ _ _ _ _ _ _ _ _ _ _ _ _).
+    set (o0 := mk_or _ _ _ rest _ _ _ _ _ _ _ _ _ _ _ _ _ _ _ _ _ _).
     inversion Fc as [|? ? Hp Fr]; subst.
     assert (A0 : acct o0) by (apply Hne; discriminate).
-    assert (W0 : W o0) by (split; [left; exact A0|split; [exact PK|unfold cpk; cbn [o0 r_cache]; apply Forall_rev; exact Fr]]).
+    assert (W0 : W o0) by (split; [left; exact A0|split; [exact PK|unfold cpk; cbn [o0 r_cache]; exact Fr]]).
     destruct (st_push_to_block p o0 c A0 PK Hp) as [S1 H1].
     assert (PK1 := pok_hdr _ _ _ _ H1 PK). change (hdr o0) with (hdr o) in H1.
     destruct (push_to_block E p o0 c) as [[o1|o1] c1]; cbn [fst res_obj] in *.
@@ -527,10 +527,10 @@ Section ObjW.
   Proof.
     intros (S & PK & CP). split; [|split]; [| |exact (cpk_ckc _ _ CP (ckc_push_from_cache E o c))].
     all: unfold push_from_cache; destruct (cache_replay_blocked o); [assumption|].
-    all: destruct (W_drain_cache (List.rev (r_cache o)) o c) as [S1 H1];
-      [apply Forall_rev; exact CP|exact S|exact PK| |].
+    all: destruct (W_drain_cache (r_cache o) o c) as [S1 H1];
+      [exact CP|exact S|exact PK| |].
     1,3: intros Hne; apply st_not_dormant; [exact S|left; intros X; apply Hne; rewrite X; reflexivity].
-    all: destruct (drain_cache E (List.rev (r_cache o)) o c) as [o1 c1]; cbn [fst] in *.
+    all: destruct (drain_cache E (r_cache o) o c) as [o1 c1]; cbn [fst] in *.
     - destruct S1 as [A1|[D1 B1]]; [left; exact A1|right; split; [exact D1|exact B1]].
     - exact (pok_hdr _ _ _ _ H1 PK).
   Qed.
